@@ -201,6 +201,13 @@ def o93(ctx):
     if not okp:
         ctx.finding(q, loops[1].node, "the reference points must be the x,y,z of the points whose group value equals the group being "
                     "processed (same tomogram)", loops[1].node, m)
+    # ... and all of them: the only selection on the caller's point table is the one by group value
+    chain_ = pit.space.chain() if isinstance(pit, Arr) and pit.space is not None else None
+    ctx.count(1, {"rows of the query points": chain_})
+    if chain_ is not None and any(w_ in chain_ for w_ in ("dedup", "sample", "head", "sort")):
+        ctx.finding(q, loops[1].node, f"the point table is reduced before the per-group selection ({chain_}): a reference position that occurs in "
+                    "several groups (tomograms) survives in one of them only, and the particles around it are kept in the others",
+                    loops[1].node, m)
     r_ = balls[0].kwargs.get("r", balls[0].args[2] if len(balls[0].args) > 2 else None)
     ctx.count(1)
     if r_ is None or to_term(r_) != sym("radius"):
@@ -350,8 +357,35 @@ def o96(ctx):
                 ctx.finding(q, what, f"{what}: got {tm.show(t)[:80]}", fn, m)
 
 
+def o98x(ctx):
+    """Warp XML files: the values of a node come back one per line of that node's text, all of them, in the file's order -- no other node of
+    the file decides which are returned (entry i goes with image i of the stack)"""
+    q = "ioutils.get_data_from_warp_xml"
+    m, fn = ctx.prog.func(q)
+    ctx.touched(q)
+    it = Interp(ctx.prog)
+    r = it.run(q, [K("ts.xml"), P("node_name")], {"node_level": K(1)})
+    t = to_term(r.ret)
+    look = [e for e in it.events if e.kind == "call" and e.name in ("method:find", "method:findall", "method:iter", "method:findtext", "method:iterfind")
+            and tm.has_call(to_term(e.args[0]), "xml.etree.ElementTree.parse")]
+    own = [e for e in look if len(e.args) > 1 and to_term(e.args[1]) == sym("node_name")]
+    ctx.count(1, {"node lookups": [tm.show(to_term(e.args[1]))[:40] if len(e.args) > 1 else "?" for e in look], "returned": tm.show(t)[:120]})
+    if not own:
+        raise Unsupported("lookup of the requested node in get_data_from_warp_xml not recognised", fn)
+    other = [e for e in look if e not in own]
+    if other:
+        ctx.finding(q, other[0].node, f"the values returned for a node depend on another node of the file ({tm.show(to_term(other[0].args[1]))[:40] if len(other[0].args) > 1 else 'a second lookup'}): "
+                    "every consumer pairs entry i with image i of the stack it was given, so the list must hold one value per line of the "
+                    "requested node, none left out", other[0].node, m)
+    thin = [n for n in tm.walk(t) if n.op == "call" and str(n.args[0]) in ("numpy.unique", "builtins.sorted", "numpy.sort", "builtins.set", "builtins.zip", "numpy.flip")]
+    ctx.count(1)
+    if thin:
+        ctx.finding(q, "returned values", f"the values of the node are re-ordered / thinned ({tm.show(thin[0])[:60]}) before they are returned", fn, m)
+
+
 def o98(ctx):
     """loaders used with per-image data: file values come back complete (sorted only on request, never thinned); array / list doses as given"""
+    o98x(ctx)
     q = "ioutils.tlt_load"
     m, fn = ctx.prog.func(q)
     ctx.touched(q)
@@ -482,6 +516,7 @@ def o99(ctx):
 
 def _obligations():
     return [
+        Obligation("O9.20", "accessors of the particle list: get_coordinates = (x,y,z) + shifts, get_angles / get_rotations = the stored zxz angles, fill stores values as given (shared with C05)", lambda ctx: __import__('spec.C05', fromlist=['accessors']).accessors(ctx), floor=20),
         Obligation("O9.9", "dimensions_load: an N x 4 table comes back as given (own tomogram number per row, columns tomo_id x y z), one triplet is repeated per listed tomogram", o99, floor=10),
         Obligation("O9.10", "helpers the filters remove through: remove_feature keeps exactly the rows that differ (exact !=), subsets select == (shared with C08)", lambda ctx: _c08.o81(ctx), floor=10),
         Obligation("O9.8", "tlt_load(file) returns every value (sorted only on request); total_dose_load hands arrays / lists back as given", o98, floor=4),
@@ -495,4 +530,4 @@ def _obligations():
 
 
 def obligations():
-    return _obligations() + [labels_obligation("C09"), selectors_obligation("C09"), effects_obligation("C09"), plumbing_obligation("C09"), overrides_obligation("C09"), options_obligation("C09")]
+    return _obligations() + [constructors_obligation(['cryomotl.Motl', 'cryomotl.EmMotl']), labels_obligation("C09"), selectors_obligation("C09"), effects_obligation("C09"), plumbing_obligation("C09"), overrides_obligation("C09"), options_obligation("C09")]
